@@ -105,6 +105,15 @@ func runC04(w *World) {
 		return
 	}
 	p := s.P
+	// a second peer with its own healthy session: nothing written through the
+	// first peer's writers may ever show up on its connections
+	by := s.E.NewPeer(PeerSpec{RemoteIP: "10.0.0.3", LocalAS: 65001, RemoteAS: 65003, Hold: 9, IdleHold: time.Second, ConnectRetry: 2 * time.Second}, "10.0.0.3", 9)
+	by.Site.DialPolicy = func(*DialRec) int { return 1 }
+	by.Site.OnConn = func(c *Conn) { by.Speaker.Serve(c, nil) }
+	if err := s.E.Add(by); err != nil {
+		w.HarnessError("C04 bystander: %v", err)
+		return
+	}
 	var causes []string
 	for k := 0; k < nsess; k++ {
 		c := s.E.OpenConn(p, dir, 10*time.Minute)
